@@ -207,6 +207,76 @@ class FakeQueue:
         raise _queue.Empty()
 
 
+class FakeLock:
+    """stands for threading.Lock inside the package.  The simulation runs one thread at a time, so a real lock taken twice by
+    the same flow of control (a frame handled inside the thread's own send call, say) would block the whole run for good —
+    which is what it does to the real program: that thread never runs again.  Here the second acquire ends the thread (or
+    the handler) with SimStall and leaves a STALL entry in the trace, like a handler that does not return."""
+    reentrant = False
+
+    def __init__(self):
+        self.owner, self.depth = None, 0
+
+    def _me(self):
+        sim = Sim.active
+        return (sim.current if sim is not None and sim.current is not None else 'main')
+
+    def acquire(self, blocking=True, timeout=-1):
+        sim, me = Sim.active, self._me()
+        if self.owner is None or (self.reentrant and self.owner is me):
+            self.owner, self.depth = me, self.depth + 1
+            return True
+        if not blocking:
+            return False
+        if self.owner is me:
+            if sim is not None:
+                th = sim.current
+                sim.trace.append((sim.now, th.owner if (th is not None and th.owner is not None) else -1, 'STALL',
+                                  (th.name if th is not None else 'handler') + ':blocked-on-a-lock-it-holds'))
+                sim.stalls += 1
+            raise SimStall()
+        # held by another thread of the simulation: let the others run until it is free
+        for _ in range(10000):
+            if self.owner is None:
+                break
+            if sim is None:
+                break
+            if sim.current is not None:
+                sim.schedule(sim.now, 'resume', sim.current)
+                sim.current.state = 'runnable'
+                sim.current.park()
+            elif isinstance(self.owner, SimThread) and self.owner.state != 'dead':
+                self.owner.switch_in()
+            else:
+                break
+        if self.owner is not None:
+            raise SimStall()
+        self.owner, self.depth = me, 1
+        return True
+
+    def release(self):
+        if self.owner is None:
+            raise RuntimeError('release unlocked lock')
+        self.depth -= 1
+        if self.depth <= 0:
+            self.owner, self.depth = None, 0
+
+    def locked(self):
+        return self.owner is not None
+
+    def __enter__(self):
+        self.acquire()
+        return True
+
+    def __exit__(self, *a):
+        self.release()
+        return False
+
+
+class FakeRLock(FakeLock):
+    reentrant = True
+
+
 class FakeThreadCls:
     """stands for threading.Thread inside the package"""
     def __init__(self, target=None, name='thread', args=(), kwargs=None, daemon=None):
@@ -397,7 +467,7 @@ def patch_modules(sim):
     import j1939  # noqa
     ft = FakeTime(sim)
     fq = types.SimpleNamespace(Queue=FakeQueue, Empty=_queue.Empty, Full=_queue.Full)
-    fth = types.SimpleNamespace(Thread=FakeThreadCls, Event=_threading.Event, Lock=_threading.Lock,
+    fth = types.SimpleNamespace(Thread=FakeThreadCls, Event=_threading.Event, Lock=FakeLock, RLock=FakeRLock,
                                 current_thread=_threading.current_thread)
     for mn in ['j1939.electronic_control_unit', 'j1939.j1939_21', 'j1939.j1939_22', 'j1939.Dm14Query',
                'j1939.Dm14Server', 'j1939.memory_access']:
